@@ -269,6 +269,7 @@ def run_cyclic(rng, counters, digests, samples, violations):
 
 def run_shard(spec):
     rng = random.Random("C02:%s:%s" % (spec["seed"], spec["shard"]))
+    mgrmon.install_reach_counters()
     mgrmon.install_run_events()
     mgrmon.install_toposort(random.Random(1), contract_every=1)
     counters, digests, samples, violations, known = {}, set(), [], [], []
@@ -323,6 +324,7 @@ def run_shard(spec):
                 counters["witness_KF1_reproduced"] = 1
                 break
     counters.update({"monitor_" + k: v for k, v in mgrmon.COUNTS.items()})
+    counters["anchors_reached"] = dict(mgrmon.REACH)
     counters["assignments_value_compared"] = lockstep.STATS["assignments_compared"]
     return {"evaluations": counters.get("windows_checked", 0), "digests": sorted(digests), "samples": samples,
             "counters": counters, "violations": violations, "known": known}
